@@ -1,0 +1,19 @@
+//go:build verif
+
+package riscv
+
+// VerifMatch runs only the opcode matching step of Parse on bs and returns the
+// name of the matched instruction. It is compiled only with the verif build
+// tag and is used by the external verification harness.
+func (p Parser) VerifMatch(bs []byte) (string, bool) {
+	if len(bs) < instructionLen {
+		return "", false
+	}
+
+	t, ok := p.matcher.Match(bs)
+	if !ok {
+		return "", false
+	}
+
+	return t.name, true
+}
